@@ -16,7 +16,9 @@ RULE = ("a case = a class table in DEFINITION ORDER (1-3 hierarchies of depth <=
         "nested, overlapping or identical between siblings and parents, in 3 layers so that fields annotated C, Optional[C], "
         "List[C], Dict[str,C] reference lower layers; written as a real module into a per-case temp dir) + an instance tree + "
         "the class it is loaded through + drop_extra_fields in {None,True,False} + save_dc_types; the same table is replayed in "
-        "several shuffled definition orders; a second stream loads edited dicts (missing/unknown keys, foreign or unresolvable "
+        "several shuffled definition orders; a history stream defines a prefix of the table, performs real loads through the "
+        "classes defined so far, then defines the remaining classes (late siblings / grandchildren) in the same module and loads "
+        "an instance of a late class through the early base; a further stream loads edited dicts (missing/unknown keys, foreign or unresolvable "
         "_type_, non-ancestor load class). Non-trivial = loaded through a strict ancestor in a family of >= 3 classes, or an "
         "instance with a nested dataclass node; distinct by canonical JSON of the case.")
 ASSUMPTIONS = [
@@ -269,6 +271,31 @@ def plain(v):
     raise ValueError(t)
 
 
+def gen_history(rng, table):
+    """process history: part of the table is defined, loads happen, the rest (containing the class of the instance under
+    test: a late sibling or grandchild) is defined afterwards in the same module, then the load under test"""
+    bases = [c["name"] for c in table if strict_desc(table, c["name"])]
+    if not bases:
+        return None
+    base = rng.choice([b for b in bases if by_name(table)[b]["parent"] is None] * 2 + bases)
+    dcls = rng.choice(strict_desc(table, base))
+    order = shuffle_definition_order(rng, table)
+    names = [c["name"] for c in order]
+    lo, hi = names.index(base) + 1, names.index(dcls)
+    split = hi if rng.random() < 0.5 else rng.randrange(lo, hi + 1)
+    early = names[:split]
+    warm = [{"through": base, "kind": "unknown-key"}]
+    early_desc = [n for n in strict_desc(table, base) if n in early]
+    if early_desc:
+        warm.append({"through": base, "kind": "instance", "inst": gen_inst(rng, order[:split], rng.choice(early_desc))})
+    for n in early:
+        if n != base and rng.random() < 0.3:
+            warm.append({"through": n, "kind": "unknown-key"})
+    return {"op": "sub.history", "case": {"classes": order, "split": split, "warm": warm, "base": base,
+                                          "inst": gen_inst(rng, table, dcls), "drop": rng.choice([None, None, False, False, True]),
+                                          "save": rng.random() < 0.15}}
+
+
 def gen(rng, tier):
     n_tables = 300 if tier == "quick" else 6000
     for _ in range(n_tables):
@@ -287,6 +314,11 @@ def gen(rng, tier):
             for _ in range(2):  # same content, two definition orders
                 yield {"op": "sub.load", "case": {"classes": shuffle_definition_order(rng, table), "base": base, "inst": inst,
                                                   "drop": drop, "save": save}}
+        # process history: classes defined after earlier loads
+        for _ in range(2):
+            h = gen_history(rng, table)
+            if h is not None:
+                yield h
         # edited dicts
         for _ in range(2):
             base = rng.choice(roots)
@@ -317,9 +349,9 @@ def gen(rng, tier):
 _COUNTER = itertools.count()
 
 
-def _source(classes):
+def _source(classes, header=True):
     lines = ["from dataclasses import dataclass, field", "from typing import Dict, List, Optional",
-             "from simple_parsing.helpers import Serializable", "", ""]
+             "from simple_parsing.helpers import Serializable", "", ""] if header else []
     for c in classes:
         bases = c["parent"] or "Serializable"
         kw = "" if c["dis"] is None else f", decode_into_subclasses={c['dis']}"
@@ -354,7 +386,10 @@ def _source(classes):
 class _World:
     """the class table as REAL classes in a fresh uniquely-named module (so `_type_` paths resolve through import)"""
 
-    def __init__(self, classes):
+    def __init__(self, classes, first=None):
+        """`first`: define only classes[:first] now; the rest later with define_rest() (same module, same process)"""
+        self._later = [] if first is None else classes[first:]
+        classes = classes if first is None else classes[:first]
         self.dir = tempfile.mkdtemp(prefix=f"spverif_c14.{os.getpid()}.", dir=os.environ.get("TMPDIR", "/tmp"))
         self.modname = f"spverif_c14_{os.getpid()}_{next(_COUNTER)}"
         path = os.path.join(self.dir, self.modname + ".py")
@@ -372,7 +407,42 @@ class _World:
         self.mod = mod
         self.cls = {c["name"]: getattr(mod, c["name"]) for c in classes}
 
+    def define_rest(self):
+        """process history: further class statements executed in the SAME module after loads have already happened"""
+        if not self._later:
+            return
+        path = os.path.join(self.dir, self.modname + "_later.py")
+        src = _source(self._later, header=False)
+        with open(path, "w") as fh:
+            fh.write(src)
+        exec(compile(src, path, "exec"), self.mod.__dict__)
+        for c in self._later:
+            self.cls[c["name"]] = getattr(self.mod, c["name"])
+        self._later = []
+
+    def _forget(self):
+        """isolation between cases: take this case's classes out of the library's process-wide registries again
+        (SerializableMixin.subclasses, the decoding table, the `encode` singledispatch registry). Without this every later
+        class definition / first encode of a type scans all classes of all earlier cases (quadratic run time)."""
+        mine = set(self.cls.values())
+        try:
+            from simple_parsing.helpers.serialization import decoding, encoding
+            from simple_parsing.helpers.serialization.serializable import SerializableMixin
+
+            SerializableMixin.subclasses[:] = [k for k in SerializableMixin.subclasses if k not in mine]
+            for k in mine:
+                decoding._decoding_fns.pop(k, None)
+            for cell in encoding.encode.register.__closure__ or ():
+                reg = cell.cell_contents
+                if isinstance(reg, dict) and object in reg:
+                    for k in mine:
+                        reg.pop(k, None)
+            encoding.encode._clear_cache()
+        except Exception:  # registries shaped differently: nothing to restore
+            pass
+
     def close(self):
+        self._forget()
         sys.modules.pop(self.modname, None)
         shutil.rmtree(self.dir, ignore_errors=True)
 
@@ -474,6 +544,8 @@ def impl(case):
 
     logging.getLogger("simple_parsing").setLevel(logging.CRITICAL)
     op, c = case["op"], case["case"]
+    if op == "sub.history":
+        return _impl_history(c)
     w = _World(c["classes"])
     try:
         rows, pi = w.resolve_rows(c["classes"])
@@ -498,6 +570,41 @@ def impl(case):
         w.close()
 
 
+def _impl_history(c):
+    """define classes[:split]; perform real loads through every class defined so far (the harness itself never calls
+    all_subclasses before the final load); define the remaining classes in the same module; then the load under test"""
+    w = _World(c["classes"], first=c["split"])
+    try:
+        early = c["classes"][: c["split"]]
+        warm = []
+        for cl in early:
+            C = w.cls[cl["name"]]
+            for wd in c["warm"]:
+                if wd["through"] != cl["name"]:
+                    continue
+                if wd["kind"] == "unknown-key":
+                    fn = lambda C=C: C.from_dict({"zz_warm": 0}, drop_extra_fields=False)  # noqa: E731
+                else:
+                    o = w.build(wd["inst"])
+                    dd = o.to_dict()
+                    fn = lambda C=C, dd=dd: C.from_dict(dd, drop_extra_fields=False)  # noqa: E731
+                out, _ = _outcome(fn)
+                warm.append(out["o"] if out["o"] != "raise" else "raise:" + str(out.get("exc")))
+        w.define_rest()
+        Base = w.cls[c["base"]]
+        orig = w.build(c["inst"])
+        d = orig.to_dict(save_dc_types=c["save"])
+        out, val = _outcome(lambda: Base.from_dict(d, drop_extra_fields=c["drop"]))
+        rows, pi = w.resolve_rows(c["classes"])   # observed AFTER the load under test
+        obs = {"rows": rows, "pi": pi, "dict": w.canon_dict(d), "out": out, "orig_cv": sp.cv(orig), "warm": warm}
+        if val is not None:
+            obs["equal"] = bool(val == orig)
+            obs["same_type"] = type(val) is type(orig)
+        return obs
+    finally:
+        w.close()
+
+
 def _with_defaults(classes):
     out = []
     for c in classes:
@@ -511,7 +618,8 @@ def model_case(case, obs):
     if case["op"] == "sub.resolve":
         return mc
     mc.update(base=c["base"], drop=c["drop"], pi=obs["pi"])
-    if case["op"] == "sub.load":
+    if case["op"] in ("sub.load", "sub.history"):
+        # history: the candidates of the load under test are all subclasses existing at that time = the whole table
         mc.update(inst=c["inst"], save=c["save"])
     else:
         mc.update(dict=c["dict"])
@@ -523,7 +631,7 @@ def project(case, obs):
         order = [c["name"] for c in case["case"]["classes"]]
         return [dict(r, desc=sorted(r["desc"], key=order.index)) for r in obs["rows"]]
     out = {"out": obs["out"]}
-    if case["op"] == "sub.load":
+    if case["op"] in ("sub.load", "sub.history"):
         out["dict"] = obs["dict"]
     return out
 
@@ -687,7 +795,7 @@ def _subnodes(v):
             yield from _subnodes(x)
 
 
-def oracle(case, obs):
+def _oracle(case, obs):
     op, c = case["op"], case["case"]
     classes = c["classes"]
     fails = []
@@ -702,7 +810,7 @@ def oracle(case, obs):
         return fails
     base = c["base"]
     out = obs["out"]
-    if op == "sub.load":
+    if op in ("sub.load", "sub.history"):
         inst, save, drop = c["inst"], c["save"], c["drop"]
         if obs["orig_cv"] != inst:
             fails.append({"clause": "harness", "detail": "the real instance differs from the case's instance tree"})
@@ -739,10 +847,31 @@ def oracle(case, obs):
     return fails
 
 
+def oracle(case, obs):
+    fails = _oracle(case, obs)
+    op, c = case["op"], case["case"]
+    classes = c["classes"]
+    if op == "sub.history":
+        # a class defined AFTER earlier loads is a subclass like any other: the registered subclass set seen after the load
+        # under test must be the whole hierarchy, and the load must obey the same clauses as if everything had been defined
+        # up front (checked by _oracle exactly like sub.load)
+        late = [x["name"] for x in classes[c["split"]:]]
+        for row in obs["rows"]:
+            if row["desc"] != sorted(strict_desc(classes, row["name"])):
+                missing = sorted(set(strict_desc(classes, row["name"])) - set(row["desc"]))
+                fails.append({"clause": "history-subclass-set", "late": late,
+                              "detail": f"after defining {late} late, all_subclasses({row['name']}) = {row['desc']} "
+                                        f"(missing {missing})"})
+                break
+    return fails
+
+
 def nontrivial(case, obs):
     op, c = case["op"], case["case"]
     if op == "sub.resolve":
         return len(c["classes"]) >= 3
+    if op == "sub.history":
+        return c["inst"]["cls"] in [x["name"] for x in c["classes"][c["split"]:]] and c["inst"]["cls"] != c["base"]
     if op == "sub.load":
         strict = c["inst"]["cls"] != c["base"] and len(family(c["classes"], c["base"])) >= 3
         nested = sum(1 for _ in _subnodes(c["inst"])) >= 2
@@ -759,7 +888,13 @@ def tags(case, obs):
     t.append("out:" + (out["o"] if out["o"] != "raise" else f"raise:{out.get('exc')}"))
     t.append(f"drop:{c['drop']}")
     t.append("base_dis:%s" % eff_dis(c["classes"], c["base"]))
-    if op == "sub.load":
+    if op == "sub.history":
+        late = [x["name"] for x in c["classes"][c["split"]:]]
+        t.append("late-inst:%s" % (c["inst"]["cls"] in late))
+        t.append("late-kind:" + ("grandchild" if by_name(c["classes"])[c["inst"]["cls"]]["parent"] not in (None, c["base"])
+                                 else "child-or-self"))
+        t += [f"warm:{x}" for x in sorted(set(obs.get("warm", [])))]
+    if op in ("sub.load", "sub.history"):
         inst = c["inst"]
         t.append(f"save:{c['save']}")
         t.append("nodes:%d" % min(6, sum(1 for _ in _subnodes(inst))))
@@ -799,6 +934,19 @@ def _prune_inst(v, pred_drop_field):
 
 def shrink(case):
     op, c = case["op"], case["case"]
+    if op == "sub.history":
+        # fewer warm-up loads; an earlier / later split; drop unused late leaf classes
+        for i in range(len(c["warm"])):
+            yield {"op": op, "case": dict(c, warm=c["warm"][:i] + c["warm"][i + 1:])}
+        names = [x["name"] for x in c["classes"]]
+        used = _used_classes(c) | {wd["inst"]["cls"] for wd in c["warm"] if "inst" in wd} | {wd["through"] for wd in c["warm"]}
+        referenced = {f["ty"]["cls"] for cl in c["classes"] for f in cl["fields"] if "cls" in f["ty"]}
+        parents = {cl["parent"] for cl in c["classes"]}
+        for i, n in enumerate(names):
+            if n not in used and n not in parents and n not in referenced:
+                yield {"op": op, "case": dict(c, classes=[x for x in c["classes"] if x["name"] != n],
+                                              split=c["split"] - (1 if i < c["split"] else 0))}
+        return
     if op != "sub.load":
         return
     classes = c["classes"]
@@ -841,7 +989,7 @@ def shrink(case):
 
 def neighbours(case, rng):
     op, c = case["op"], case["case"]
-    if op == "sub.resolve":
+    if op in ("sub.resolve", "sub.history"):
         return
     for _ in range(6):
         yield {"op": op, "case": dict(c, classes=shuffle_definition_order(rng, c["classes"]))}
@@ -858,7 +1006,7 @@ def neighbours(case, rng):
 def _sig_d16(case, obs, fail):
     """save_dc_types=True, the node whose class was not restored is an element of a List[...] / Dict[str, ...] field (or lies
     below such an element) and its serialized dict carries no `_type_` key"""
-    return (case["op"] == "sub.load" and case["case"]["save"] and fail.get("clause") == "dc-types"
+    return (case["op"] in ("sub.load", "sub.history") and case["case"]["save"] and fail.get("clause") == "dc-types"
             and fail.get("in_container") is True and fail.get("type_key_written") is False)
 
 
@@ -866,7 +1014,7 @@ def _sig_noninit(case, obs, fail):
     """subclass recovery (no `_type_` key at the failing node) where the original class of the node — or the class that
     came back instead — has an init=False field that the class it is loaded through does not have: such keys are demanded /
     counted as INIT fields of the candidates, so the owner can never be chosen (RuntimeError, raw dict, or a wrong class)"""
-    if case["op"] not in ("sub.load", "sub.loaddict"):
+    if case["op"] not in ("sub.load", "sub.loaddict", "sub.history"):
         return False
     if fail.get("clause") not in ("identified", "superset", "recover", "raise", "either"):
         return False
